@@ -779,8 +779,17 @@ def _frames(draw, maxnorm=10.0):
     return np.concatenate([p, w])
 
 
+@st.composite
+def _plain_frames(draw, maxnorm=10.0):
+    """Unexceptional frame: rotation angle in [1e-3, pi-1e-3], any axis class."""
+    p = _draw_pos(draw, maxnorm, _LOG10 if maxnorm == 10.0 else _LOG5)
+    w = draw(_GEN_ANG) * _draw_unit(draw)
+    return np.concatenate([p, w])
+
+
 _FRAMES10 = _frames(10.0)
 _FRAMES5 = _frames(5.0)
+_PLAIN10 = _plain_frames(10.0)
 _ROTVEC = _FRAMES10.map(lambda t: t[3:])
 _POS5 = _FRAMES5.map(lambda t: t[:3])
 _POS10 = _FRAMES10.map(lambda t: t[:3])
@@ -830,7 +839,23 @@ _I03 = st.integers(0, 3)
 _I04 = st.integers(0, 4)
 
 
+_FIX = [np.array([0.5, -0.25, 1.0, 0.3, -0.5, 0.7]), np.array([-1.0, 0.75, 0.25, -0.6, 0.2, 0.45])]
+
+
+def _separate(F, others, k):
+    """Hypothesis' mutator likes to repeat earlier draws, which makes 'unrelated' frames coincide or share
+    an axis.  In the plain half of the mixture such a frame is composed with a fixed generic motion instead
+    (a deterministic function of the draws, so replay/shrinking are unaffected)."""
+    if all(not may_shortcut(F, o) and axes_nonparallel(F, o) for o in others):
+        return F
+    w = O.log3(O.exp3(F[3:]) @ O.exp3(_FIX[k][3:]))
+    return _clip_frame(np.concatenate([F[:3] + _FIX[k][:3], w]))
+
+
 def _draw_pair(draw):
+    if draw(_BOOL):
+        A = draw(_PLAIN10)
+        return A, _separate(draw(_PLAIN10), [A], 0)
     A = draw(_FRAMES10)
     B = _draw_near(draw, A) if draw(_I02) == 0 else draw(_FRAMES10)
     return A, B
@@ -843,6 +868,10 @@ def frame_pairs(draw):
 
 @st.composite
 def frame_triples(draw):
+    if draw(_BOOL):         # half of the cases: three unrelated, unexceptional frames
+        A = draw(_PLAIN10)
+        B = _separate(draw(_PLAIN10), [A], 0)
+        return {"A": A, "B": B, "C": _separate(draw(_PLAIN10), [A, B], 1)}
     A = draw(_FRAMES10)
     B = _draw_near(draw, A) if draw(_I03) == 0 else draw(_FRAMES10)
     k = draw(_I04)
@@ -952,7 +981,7 @@ def _keep_case(draw):
 
 
 CLAUSES = [
-    Clause("frame_change_matches_oracle", c_frame_oracle, S_FRAME_ORACLE, 1500, 10000),
+    Clause("frame_change_matches_oracle", c_frame_oracle, S_FRAME_ORACLE, 1200, 10000),
     Clause("frame_roundtrip_identity", c_frame_roundtrip, S_ROUNDTRIP, 1000, 10000),
     Clause("frame_composition", c_frame_composition, S_COMPOSITION, 1000, 10000),
     Clause("frame_recorded_is_target", c_frame_recorded, S_RECORDED, 1000, 10000),
@@ -962,10 +991,10 @@ CLAUSES = [
     Clause("cross_frame_sum", c_cross_frame_sum,
            _arith_case(("obj_B",), {"op": st.sampled_from(["+", "-", "+=", "-="])}), 1000, 10000),
     Clause("add_sub_cancel", c_add_sub_cancel,
-           _arith_case(ALL_FORMS, {"order": st.sampled_from(["a+b", "b+a"])}), 1500, 10000),
-    Clause("sub_is_add_neg", c_sub_is_add_neg, _arith_case(ALL_FORMS), 1500, 10000),
-    Clause("rsub_is_neg_sub", c_rsub_is_neg_sub, _arith_case(ALL_FORMS), 1500, 10000),
+           _arith_case(ALL_FORMS, {"order": st.sampled_from(["a+b", "b+a"])}), 1200, 10000),
+    Clause("sub_is_add_neg", c_sub_is_add_neg, _arith_case(ALL_FORMS), 1200, 10000),
+    Clause("rsub_is_neg_sub", c_rsub_is_neg_sub, _arith_case(ALL_FORMS), 1200, 10000),
     Clause("scale_unscale", c_scale_unscale,
            _arith_case(SCALAR_FORMS, {"order": st.sampled_from(["k*a", "a*k"]), "sf": K_F, "si": K_I}), 1000, 10000),
-    Clause("arith_result_keeps_kind", c_result_keeps_kind, _keep_case(), 1500, 10000),
+    Clause("arith_result_keeps_kind", c_result_keeps_kind, _keep_case(), 1200, 10000),
 ]
